@@ -180,10 +180,21 @@ def name_clash_sessions(res, rnd):
                            'C04 (app id spelled like a connection name)', theorem='C04_names_sequential / C11_list_exact', nontrivial=lambda c, m: True, kernel_sample=3)
 
 
+def gdb_sessions(res, rnd):
+    """attribution in GDB mode: the connection a closure / a destroy belongs to is the libwayland address (64-bit addresses, some
+    equal in their low 32 bits, addresses used again)"""
+    import gdbcheck
+    n = 50 if res.tier == 'quick' else 2000
+    cases = [gdbcheck.build_case(rnd, n_addr=rnd.choice([2, 3])) for _ in range(n)]
+    gdbcheck.run_cases(res, cases, lambda cat: cat.startswith('final.conn') or cat in ('out.gmsg', 'out.gdestroy'), 'C04 (attribution by address, gdb mode)',
+                       theorem='C04_isolation / C15_conns_are_lifetimes', nontrivial=lambda c, m: False, kernel_sample=3)
+
+
 def extra_all(res, rnd, cases):
     extra(res, rnd, cases)
     sink_sequences(res, rnd)
     name_clash_sessions(res, rnd)
+    gdb_sessions(res, rnd)
 
 
 INFO, run, replay = sessprop.make(
